@@ -12,7 +12,7 @@ IMPORTS = ('Require Import V.Base.MachineInt V.Model.LogBase V.Model.Reader V.Mo
 RULE = ('histories of 4-11 operations on a Subscription obtained from the conductor with 1-5 images (each on its own log '
         'file, distinct session ids incl. i32::MIN/MAX, own geometry position: term counts {0,1,2,65536,2^31-2}, random aligned '
         'start offsets, start possibly in the middle of a fragmented message): Subscription::poll through a FragmentAssembler '
-        '(initial buffer lengths default/32/64/100), Subscription::controlled_poll with handler answers chosen per frame offset, '
+        '(initial buffer lengths default, 0, 1, 2, 32, 33, 64, 100, 4096), Subscription::controlled_poll with handler answers chosen per frame offset, '
         'Subscription::block_poll, frames committed in steps between calls (per-image backlogs 0..14 frames), add_image / '
         'remove_image between calls (on_available_image / on_unavailable_image), fragment limits {0,1,2,3,10,MAX,-1}; frame '
         'streams: unfragmented, BEGIN/MIDDLE*/END runs with payloads 1..160, padding, claimed tail; a malformed stream '
@@ -22,9 +22,10 @@ ASSUMPTIONS = [
     'session ids of the images of one subscription are distinct (the driver creates one image per session)',
     'every frame of an image log carries the session id of that image',
     'one polling thread per subscription; add / remove of images happen between polls (AtomicVec is not exercised concurrently here)',
-    'BufferBuilder capacity growth is not modelled (initial lengths 0 and 1 make find_suitable_capacity loop for ever; they are not generated)',
+    'BufferBuilder capacity growth is not modelled; it is exercised by small initial buffer lengths (0 and 1 made find_suitable_capacity loop for ever before fixes/C20-buffer-builder-min-capacity.diff)',
 ] + c05.ASSUMPTIONS[:3]
-PER_CASE_TIMEOUT = 5.0
+PER_CASE_TIMEOUT = 1.0
+CHUNK = 20
 
 MAXI = 2**31 - 1
 MINI = -2**31
@@ -98,7 +99,9 @@ def gen_case(rng, malformed=False):
     order = list(range(nslots))
     rng.shuffle(order)
     initial = order[:rng.choice([nslots, nslots, max(1, nslots - 1), rng.randrange(0, nslots + 1)])]
-    ibl = rng.choice([0, 0, 32, 64, 100])
+    ibl = rng.choice([0, 0, 0, 32, 64, 100, 2, 33, 4096])
+    if rng.random() < 0.02:
+        ibl = rng.choice([1, -1])
     ops = []
     for _ in range(rng.randrange(4, 12)):
         r = rng.random()
